@@ -367,7 +367,12 @@ def evaluate(plan):
     subs_by_file = {}
     for e in evs[i1 + 1:]:
         if e[1] == 'stderr' and e[2]['text'].startswith('=== '):
-            cur = e[2]['text'][4:].rstrip('\n')
+            name = e[2]['text'][4:].rstrip('\n')
+            if name not in plan['files'] and name not in plan['roots']:
+                # some other progress output, not the '=== <file>' line that
+                # run_proofreader() prints for the file it is about to check
+                continue
+            cur = name
             proofread.append(cur)
         elif e[1] == 'submit' and cur is not None:
             subs_by_file.setdefault(cur, []).append(e[2]['text'])
